@@ -1563,6 +1563,37 @@ class Summaries:
                 return old if isinstance(old, EnumV) else eng.mk_default(ctx.st, ctx.ret_ty)
             return RefV((a.path[0], a.path[1] + (('v', 1), ('f', '0', '?'))), True)
 
+        @reg('std::option::Option::<T>::take')
+        def _(ctx):
+            a = ctx.args[0]
+            if not isinstance(a, RefV):
+                return eng.mk_default(ctx.st, ctx.ret_ty)
+            old = eng.read(ctx.st, a.path)
+            oty = old.ty if isinstance(old, EnumV) else ctx.ret_ty
+            eng.write(ctx.st, a.path, none(oty), log=(a.path[0] == ('H', 'S')))
+            return old if isinstance(old, EnumV) else eng.mk_default(ctx.st, ctx.ret_ty)
+
+        @regx(r'^(std|core)::mem::replace$')
+        def _(ctx):
+            a, v = ctx.args
+            if not isinstance(a, RefV):
+                return eng.mk_default(ctx.st, ctx.ret_ty)
+            old = eng.read(ctx.st, a.path)
+            eng.write(ctx.st, a.path, v, log=(a.path[0] == ('H', 'S')))
+            return old
+
+        @regx(r'^(std|core)::mem::take$')
+        def _(ctx):
+            a = ctx.args[0]
+            if not isinstance(a, RefV):
+                return eng.mk_default(ctx.st, ctx.ret_ty)
+            old = eng.read(ctx.st, a.path)
+            out = []
+            for (s2, dv) in default_value(ctx, ctx.st, ctx.ret_ty):
+                eng.write(s2, a.path, dv, log=(a.path[0] == ('H', 'S')))
+                out.append((s2, old))
+            return out
+
         @reg('std::option::Option::<T>::unwrap_or_else')
         def _(ctx):
             f = ctx.args[1]
@@ -1912,18 +1943,30 @@ class Summaries:
             return BoolV(None, ('fact', ('opteq', next(_c))))
 
         # ---------- numeric helpers -------------------------------------
-        @regx(r'^std::cmp::Ord::min$|^std::cmp::min$|as std::cmp::Ord>::min$')
+        @regx(r'^std::cmp::Ord::min$|^std::cmp::min$|as std::cmp::Ord>::min$|impl std::cmp::Ord for \w+>::min$')
         def _(ctx):
             a, b = ctx.args
             if isinstance(a, NumV) and isinstance(b, NumV):
                 return eng.num_min(ctx.st, a, b, a.ty)
             return eng.mk_default(ctx.st, ctx.ret_ty)
 
-        @regx(r'^std::cmp::Ord::max$|^std::cmp::max$|as std::cmp::Ord>::max$')
+        @regx(r'^std::cmp::Ord::max$|^std::cmp::max$|as std::cmp::Ord>::max$|impl std::cmp::Ord for \w+>::max$')
         def _(ctx):
             a, b = ctx.args
             if isinstance(a, NumV) and isinstance(b, NumV):
                 return eng.num_max(ctx.st, a, b, a.ty)
+            return eng.mk_default(ctx.st, ctx.ret_ty)
+
+        @regx(r'^std::cmp::Ord::clamp$|as std::cmp::Ord>::clamp$|impl std::cmp::Ord for \w+>::clamp$')
+        def _(ctx):
+            # x.clamp(lo, hi) = min(max(x, lo), hi); panics when lo > hi
+            x, lo, hi = ctx.args
+            if isinstance(x, NumV) and isinstance(lo, NumV) and isinstance(hi, NumV):
+                ok = eng.prove_le(ctx.st, lo, hi) is True
+                ctx.oblige('precondition', 'clamp: min <= max', ok, 'clamp(%r, %r)' % (lo, hi))
+                eng.assume_le(ctx.st, lo, hi)
+                return eng.num_min(ctx.st, eng.num_max(ctx.st, x, lo, x.ty), hi, x.ty)
+            ctx.oblige('precondition', 'clamp: min <= max', False, 'clamp on %r' % (x,))
             return eng.mk_default(ctx.st, ctx.ret_ty)
 
         @regx(r'^core::num::<impl u(8|16|32|64|size)>::saturating_sub$')
@@ -2280,6 +2323,7 @@ class Summaries:
             r = EnumV(rty, {0, 1}, {0: StructV('Ok', {'0': pay}), 1: StructV('Err', {})})
             if isinstance(s, StrV) and s.oid is not None:
                 st.vn[('parse-of', r.eid)] = (s, oty)
+                st.vn[('parse-pay', r.eid)] = pay
             return r
 
         @reg('<std::string::String as std::ops::Index<I>>::index', 'core::str::traits::<impl std::ops::Index<I> for str>::index',
@@ -2708,6 +2752,8 @@ class Summaries:
                 return [(st, CollV(kind, ty, next(_c), length=NumV(None, 0, 'usize'), known=(), prov=('new', ctx.fr.func if ctx.fr else None)))]
             if is_str(ty):
                 return [(st, StrV(''))]
+            if head == 'std::option::Option':
+                return [(st, none(ty))]
             if ty == 'bool':
                 return [(st, BoolV(False))]
             if ty in INT_RANGES:
